@@ -846,7 +846,7 @@ def subdomain_law_failures(families, limit=6):
 
 
 def run_obligations(tier="quick"):
-    return subdomain_law_failures(psl_families(tier))[0]
+    return subdomain_law_failures(psl_families(tier), limit=2)[0]
 
 
 KF_MARK = "[ancestor inside the public suffix: by the public suffix list the two hosts do not have the same suffix]"
